@@ -300,6 +300,10 @@ func (df *DataFile) readToBuf(blockID uint32, offset uint32, buf *bytebufferpool
 	for {
 		// 当前 block 绝对偏移量
 		off := int64(blockID) * blockSize
+		// 当前 block 起始位置已到达或超过文件末尾
+		if off >= fileSize {
+			return io.EOF
+		}
 		// 当前 block 实际大小
 		size := uint32(min(fileSize-off, blockSize))
 
@@ -387,6 +391,10 @@ func (reader *DataReader) next() ([]byte, *DataPos, error) {
 	for {
 		// 当前 block 绝对偏移量
 		off := int64(reader.blockID) * blockSize
+		// 当前 block 起始位置已到达或超过文件末尾
+		if off >= fileSize {
+			return nil, nil, io.EOF
+		}
 		// 当前 block 实际大小
 		size := uint32(min(fileSize-off, blockSize))
 
